@@ -46,6 +46,10 @@ func ParseGoVersion(version string) (GoVersion, error) {
 	if err != nil {
 		return result, fmt.Errorf("invalid minor version part: %s: %w", parts[1], err)
 	}
+	if major == 0 {
+		// Major 0 is the "no constraint" value; as a request it would be taken for the latest version.
+		return result, fmt.Errorf("invalid Go version: there is no Go %d.%d", major, minor)
+	}
 	result.Major = major
 	result.Minor = minor
 	return result, nil
